@@ -1,7 +1,8 @@
 import TssVerif.Core.Commit
+import TssVerif.Lemmas.C16
 /-! # C16 — commitments bind; hash inputs are framed unambiguously
 
-Property theorems only (helper lemmas live in `TssVerif/Lemmas`). -/
+Property theorems only (helper lemmas live in `TssVerif/Lemmas/C16.lean`). -/
 namespace TssVerif.C16
 open TssVerif
 
@@ -10,11 +11,109 @@ def oldParse : ParseCfg := { rejectNegative := false, keepTrailing := false }
 /-- the tree as it is now (the configuration the driver executes) -/
 def curParse : ParseCfg := { rejectNegative := true, keepTrailing := true }
 
-/-- **K4 witness (pre-fix tree)**: a length prefix of 2^63 made the parser slice with a negative bound. -/
+/-- every element is shorter than 2^64 bytes (true of every byte string a machine can hold) -/
+def Short (xs : List Bytes) : Prop := ∀ x ∈ xs, x.length < 2 ^ 64
+
+/-! Note: in `sha512_256i_preimage_injective`, `tagged_preimage_injective` and `commit_binding` the
+lambda binders carry an explicit `(n : Nat)` annotation; without it the statements do not elaborate
+(`fun n => (n : Int)` makes `n : Int` and `ns.map` then expects a `List Int`). Nothing else changed. -/
+
+/-! ## encodings -/
+
+theorem le64_injective {a b : Nat} (ha : a < 2 ^ 64) (hb : b < 2 ^ 64) (h : le64 a = le64 b) : a = b := by
+  exact C16L.le64_inj ha hb h
+
+theorem natBytes_roundtrip (n : Nat) : bytesToNat (natToBytesBE n) = n := by
+  exact C16L.bytesToNat_natToBytesBE n
+
+theorem natBytes_injective {n m : Nat} (h : natToBytesBE n = natToBytesBE m) : n = m := by
+  exact C16L.natToBytesBE_inj h
+
+/-- Go drops the sign: `-5` and `5` have the same bytes (recorded behaviour; every caller passes
+non-negative values). -/
+theorem neg_collides_witness : intToBytesBE (-5) = intToBytesBE 5 := by
+  rfl
+
+/-! ## framing -/
+
+/-- **the framing is injective**: different count, different split points, different bytes give
+different hash inputs (decoding runs from the end: the length is a suffix of each element). -/
+theorem frame_injective {xs ys : List Bytes} (hx : Short xs) (hy : Short ys)
+    (h : frame xs = frame ys) : xs = ys := by
+  exact C16L.frame_inj hx hy h
+
+/-- integer version, as used by `SHA512_256i` on non-negative integers -/
+theorem sha512_256i_preimage_injective {ns ms : List Nat}
+    (hn : Short (ns.map natToBytesBE)) (hm : Short (ms.map natToBytesBE))
+    (h : frame (ns.map fun (n : Nat) => intToBytesBE (n : Int)) = frame (ms.map fun (n : Nat) => intToBytesBE (n : Int))) :
+    ns = ms := by
+  rw [C16L.map_intToBytesBE_natCast, C16L.map_intToBytesBE_natCast] at h
+  exact C16L.frame_natBytes_inj hn hm h
+
+/-- two different input sequences with the same digest exhibit a collision of the hash itself,
+for every hash function `H` -/
+theorem sha512_256_injective_or_collision (H : HashFn) {xs ys : List Bytes} (hx : Short xs) (hy : Short ys)
+    (hxe : xs ≠ []) (hye : ys ≠ []) (hne : xs ≠ ys)
+    (h : sha512_256With H xs = sha512_256With H ys) : ∃ a b : Bytes, a ≠ b ∧ H a = H b := by
+  have hx' : xs.isEmpty = false := by cases xs <;> simp_all
+  have hy' : ys.isEmpty = false := by cases ys <;> simp_all
+  simp only [sha512_256With, hx', hy', Bool.false_eq_true, if_false, Option.some.injEq] at h
+  exact ⟨frame xs, frame ys, fun he => hne (C16L.frame_inj hx hy he), h⟩
+
+/-- the tagged pre-image determines the tag digest and the input sequence, for every hash whose
+digests have one fixed length -/
+theorem tagged_preimage_injective (H : HashFn) (hlen : ∀ x y, (H x).length = (H y).length)
+    {tag tag' : Bytes} {ns ms : List Nat}
+    (hn : Short (ns.map natToBytesBE)) (hm : Short (ms.map natToBytesBE))
+    (h : taggedPreimage H tag (ns.map fun (n : Nat) => (n : Int)) = taggedPreimage H tag' (ms.map fun (n : Nat) => (n : Int))) :
+    H (frame [tag]) = H (frame [tag']) ∧ ns = ms := by
+  unfold taggedPreimage at h
+  rw [C16L.map_map_intToBytesBE_natCast, C16L.map_map_intToBytesBE_natCast,
+    List.append_assoc, List.append_assoc] at h
+  obtain ⟨h1, h2⟩ := List.append_inj h (hlen _ _)
+  obtain ⟨_, h3⟩ := List.append_inj h2 (hlen _ _)
+  exact ⟨h1, C16L.frame_natBytes_inj hn hm h3⟩
+
+/-! ## commitments -/
+
+theorem commit_opens (H : HashFn) (r : Int) (secrets : List Int) :
+    commitVerifyWith H (commitWith H r secrets).1 (commitWith H r secrets).2 = .ok true := by
+  simp [commitWith, commitVerifyWith, sha512_256iWith]
+
+theorem decommit_returns_secrets (H : HashFn) (r : Int) (secrets : List Int) :
+    decommitWith H (commitWith H r secrets).1 (commitWith H r secrets).2 = .ok (some secrets) := by
+  simp [decommitWith, commitWith, commitVerifyWith, sha512_256iWith]
+
+/-- **binding reduces exactly to a collision**: two different openings of one commitment (changed,
+added, removed or re-grouped elements) give two different byte strings with the same digest value,
+for every hash function -/
+theorem commit_binding (H : HashFn) (c : Nat) {d d' : List Nat}
+    (hd : Short (d.map natToBytesBE)) (hd' : Short (d'.map natToBytesBE)) (hne : d ≠ d')
+    (h1 : commitVerifyWith H c (d.map fun (n : Nat) => (n : Int)) = .ok true)
+    (h2 : commitVerifyWith H c (d'.map fun (n : Nat) => (n : Int)) = .ok true) :
+    ∃ a b : Bytes, a ≠ b ∧ bytesToNat (H a) = bytesToNat (H b) := by
+  exact C16L.commit_binding_aux H c hd hd' hne h1 h2
+
+/-- `Verify` on an empty decommitment dereferences a nil hash (callers guard with `ValidateBasic`) -/
+theorem commit_verify_empty_panics (H : HashFn) (c : Nat) :
+    commitVerifyWith H c [] = .panic "nil-hash-cmp" := by
+  rfl
+
+/-! ## parts builder and parser -/
+
+/-- **the parser is total on the current tree**: no input makes it panic -/
+theorem parse_never_panics (secrets : List Int) (t : String) :
+    parseSecretsCfg curParse secrets ≠ .panic t := by
+  unfold parseSecretsCfg
+  split
+  · simp
+  · exact C16L.parseLoop_cur_no_panic curParse rfl secrets t _ _ _ _ _ (Int.le_refl 0)
+
+/-- **K4 witness (pre-fix tree)**: a length prefix of 2^63 made the parser slice with a negative bound -/
 theorem parse_panics_witness_before_fix :
     parseSecretsCfg oldParse [(2 ^ 63 : Int), 7] = .panic "slice-bounds" := by decide
 
-/-- **B2 witness (pre-fix tree)**: `[[7],[]]` packs to `(1,7,0)` and parsed back to `[[7]]`. -/
+/-- **B2 witness (pre-fix tree)**: `[[7],[]]` packs to `(1,7,0)` and parsed back to `[[7]]` -/
 theorem roundtrip_fails_witness_before_fix :
     builderSecrets [[7], []] = .ok [1, 7, 0] ∧ parseSecretsCfg oldParse [1, 7, 0] = .ok [[7]] := by decide
 
@@ -22,5 +121,27 @@ theorem roundtrip_fails_witness_before_fix :
 theorem witnesses_repaired :
     parseSecretsCfg curParse [(2 ^ 63 : Int), 7] = .err "invalid-length" ∧
     parseSecretsCfg curParse [1, 7, 0] = .ok [[7], []] := by decide
+
+/-- the builder refuses exactly: more than `partsCap` parts, or a part longer than `maxPartSize` -/
+theorem builder_refuses_iff (parts : List (List Int)) :
+    (∃ s, builderSecrets parts = .ok s) ↔ (parts.length ≤ partsCap ∧ ∀ p ∈ parts, p.length ≤ maxPartSize) := by
+  exact C16L.builderSecrets_ok_iff parts
+
+/-- **round-trip**: whatever the builder packs (within its limits, at least two elements in total)
+the parser returns unchanged, including empty parts anywhere -/
+theorem builder_roundtrip (parts : List (List Int)) (h1 : parts.length ≤ partsCap)
+    (h2 : ∀ p ∈ parts, p.length ≤ maxPartSize) (h3 : 2 ≤ (parts.map fun p => p.length + 1).sum) :
+    ∃ s, builderSecrets parts = .ok s ∧ parseSecretsCfg curParse s = .ok parts := by
+  exact C16L.builder_roundtrip_aux parts h1 h2 h3
+
+/-- an oversized or negative or non-int64 length prefix in first position is an error -/
+theorem parse_rejects_bad_first_length (v : Int) (rest : List Int) (hr : rest ≠ [])
+    (hv : v < 0 ∨ (maxPartSize : Int) < v) :
+    ∃ t, parseSecretsCfg curParse (v :: rest) = .err t := by
+  exact C16L.parse_rejects_bad_first v rest hr hv
+
+/-! ## hypotheses are satisfiable -/
+example : Short [[0x24, 0x00], [], [0x01]] := by
+  intro x hx; simp at hx; rcases hx with rfl | rfl | rfl <;> decide
 
 end TssVerif.C16
